@@ -567,6 +567,31 @@ func runC08RealtimeSmoke(c *fw.Ctx, id string, v refmatch.Variant) {
 			}
 		}
 	}
+	if v.Proto == "udp" && !v.V6 {
+		// a stale time-exceeded of an earlier run of the same flow: right addresses and ports, an IP-ID no probe of this
+		// run has - looked up, not found, skipped
+		m.extra = func(e *simEnv, p *refmatch.Probe) {
+			if p.TTL == 1 {
+				q := gen.QuoteBytes(p, 1, "fix")
+				if len(q) >= 28 {
+					q[4], q[5] = q[4]^0x3c, q[5]^0xc3
+					gen.FixIPv4Checksum(q, "fix")
+					e.inject(gen.WrapError(routerAddr(false, 4, 1), e.local, gen.TimeExceeded, 0, q, "min", nil, 0), "stale-time-exceeded", p, 4*time.Millisecond)
+				}
+			}
+		}
+	}
+	if v.Proto == "sack" {
+		// an acknowledgement on the probed connection whose SACK blocks lie outside the probe range (a D-SACK below the
+		// initial sequence number, a block for other data): nothing of this run's, skipped
+		m.extra = func(e *simEnv, p *refmatch.Probe) {
+			if p.TTL == 1 {
+				isn := p.Seq - uint32(p.TTL)
+				opts := wirefmt.OptSack([][2]uint32{{isn - 5000, isn - 4990}, {isn + 600, isn + 601}})
+				e.inject(gen.TCPReply(e.spec.Target, e.local, e.spec.Port, e.lport, 0x51000001, isn, wirefmt.TCPAck, opts, nil, nil), "out-of-window-sack", p, 4*time.Millisecond)
+			}
+		}
+	}
 	done := make(chan drive.Result, 1)
 	t0 := time.Now()
 	go func() { done <- e.run(m) }()
